@@ -441,6 +441,7 @@ def jPyVal (j : Json) : M PyVal := do
   match ← jStr (← jField j "t") with
   | "seq" => do pure (.seq (← (← jArr (← jField j "v")).mapM jSc))
   | "ndarr" => do pure (.ndarr (← (← jArr (← jField j "v")).mapM jSc))
+  | "big" => do pure (.ndarr (List.replicate (← jNat (← jField j "n")) (.num 0)))     -- numpy.zeros(n)
   | _ => do pure (.sc (← jSc j))
 
 open Dnp.H5 in
